@@ -1,5 +1,7 @@
 #!/bin/bash
 # hooks.baseline_off_cmd: the repository's own test suite, guard MANIFOLD_VERIF OFF, pristine flags
+B=${VERIF_BUILD:-/verif/build}/off; mkdir -p $(dirname $B)
+# gtest test discovery runs the test binary with a 5 s timeout at build time: on a loaded machine retry the build
+for i in 1 2 3; do /verif/lib/buildrepo.sh off > $B.buildlog 2>&1 && break; grep -q "terminated due to timeout" $B.buildlog || { cat $B.buildlog; exit 2; }; sleep 15; done
 set -e
-/verif/lib/buildrepo.sh off
-ctest --test-dir /verif/build/off -j8 --timeout 900 --output-junit /verif/build/off/junit.xml 2>&1 | tail -5
+ctest --test-dir $B -j8 --timeout 900 --output-junit $B/junit.xml 2>&1 | tail -5
